@@ -125,6 +125,15 @@ def run(spec, tier, seed, collect=None):
     cl.log('%s: lake build %s (%d failed) %.1fs' % (prop, 'ok' if ok else 'FAILED', len(failed), T.s()))
     if bad_axioms:
         violations.append({'kind': 'axioms', 'what': bad_axioms, 'failing_input_found': False})
+    # thorough tier: the compiled property module is re-checked by the toolchain's independent checker
+    if ok and tier != 'quick':
+        import subprocess
+        pc = subprocess.run(['lake', 'env', 'leanchecker', 'PhQVerif.Props.' + prop], cwd=LEAN, stdout=subprocess.PIPE,
+                            stderr=subprocess.STDOUT, text=True)
+        coverage['leanchecker'] = {'module': 'PhQVerif.Props.' + prop, 'exit': pc.returncode}
+        if pc.returncode != 0:
+            violations.append({'kind': 'leanchecker', 'what': 'leanchecker rejects the compiled module: ' + pc.stdout[-1500:],
+                               'failing_input_found': False})
 
     # 3. correspondence
     corr = None
